@@ -48,7 +48,20 @@ class Hook:
                 self.fetch.setdefault(role, []).append(deep_unwrap(sx(e['args'][1])))
                 return [(mat.fresh(role, self.psize, 1), st)]
             if base.get('k') == 'Ref' and base.get('name') == 'correspondences':
-                return [({'sourcePointIndex': sp.Symbol('corr.sourcePointIndex', integer=True), 'targetPointIndex': sp.Symbol('corr.targetPointIndex', integer=True)}, st)]
+                return [({'sourcePointIndex': sp.Symbol('corr.sourcePointIndex', integer=True), 'targetPointIndex': sp.Symbol('corr.targetPointIndex', integer=True),
+                          'weight': sp.Symbol('corr.weight', real=True)}, st)]
+        if k == 'Store' and e.get('op') in ('*=', '/=') and isinstance(e.get('value'), sp.Basic) and not isinstance(e.get('value'), sp.MatrixBase):
+            # J.row(n) *= s : every entry of that row written so far is scaled
+            l = strip_casts(e['lhs'])
+            if l.get('k') == 'MCall' and l.get('m') == 'row' and len(l.get('args', [])) == 1 and strip_casts(l['obj']).get('k') == 'Ref':
+                bname = strip_casts(l['obj'])['name']
+                a0 = strip_casts(l['args'][0])
+                idx = a0.get('name') if a0.get('k') == 'Ref' else None
+                keys = [k_ for k_ in st.fields if k_[0] == 'loc' and idx is not None and k_[1].startswith('%s[%s,' % (bname, idx))]
+                if keys:
+                    for k_ in keys:
+                        st.fields[k_] = st.fields[k_] * e['value'] if e['op'] == '*=' else st.fields[k_] / e['value']
+                    return [(e['value'], st)]
         if k == 'MCall' and e.get('m') in ('estimateUsingSVD', 'estimateUsingCholeskyDecomposition', 'weightedEstimate'):
             self.x = mat.fresh('x', self.nparam, 1)
             return [(self.x, st)]
